@@ -4,6 +4,8 @@ import (
 	"context"
 	"encoding/binary"
 	"errors"
+	"sync"
+	"sync/atomic"
 	"time"
 
 	eth2client "github.com/attestantio/go-eth2-client"
@@ -20,6 +22,52 @@ type Node struct {
 	w *World
 	// ExtraSpec is merged into the spec map (C20 adds domains and sizes for real services).
 	ExtraSpec map[string]any
+
+	gateMu sync.Mutex
+	gates  map[string]chan struct{}
+	held   atomic.Int32
+}
+
+// Hold makes the node slow: duty requests of the kind (att | prop | sync) block
+// until Release.  The goroutines so held count as quiescent (see World.Quiesce),
+// which lets a history start a second refresh / preparation while the first has
+// not obtained its duties yet.
+func (n *Node) Hold(kind string) {
+	n.gateMu.Lock()
+	defer n.gateMu.Unlock()
+	if n.gates == nil {
+		n.gates = map[string]chan struct{}{}
+	}
+	if n.gates[kind] == nil {
+		n.gates[kind] = make(chan struct{})
+	}
+}
+
+// Release lets the held duty requests of the kind ("" = all kinds) proceed; they
+// answer from the chain as it is now.
+func (n *Node) Release(kind string) {
+	n.gateMu.Lock()
+	defer n.gateMu.Unlock()
+	for k, ch := range n.gates {
+		if kind == "" || k == kind {
+			close(ch)
+			delete(n.gates, k)
+		}
+	}
+}
+
+// Held returns the number of duty requests blocked by Hold.
+func (n *Node) Held() int { return int(n.held.Load()) }
+
+func (n *Node) gate(kind string) {
+	n.gateMu.Lock()
+	ch := n.gates[kind]
+	n.gateMu.Unlock()
+	if ch != nil {
+		n.held.Add(1)
+		<-ch
+		n.held.Add(-1)
+	}
 }
 
 // PubKeyOf derives the public key bytes of a validator index.
@@ -90,6 +138,7 @@ func (n *Node) AttesterDuties(_ context.Context, opts *api.AttesterDutiesOpts) (
 	if opts == nil || len(opts.Indices) == 0 {
 		return nil, errors.New("no validator indices specified")
 	}
+	n.gate("att")
 	want, list := asked(opts.Indices)
 	f := Fetch{Kind: "att", Epoch: uint64(opts.Epoch), Indices: list}
 	if n.w.Chain.takeFail("att") {
@@ -124,6 +173,7 @@ func (n *Node) ProposerDuties(_ context.Context, opts *api.ProposerDutiesOpts) (
 	if opts == nil {
 		return nil, errors.New("no options")
 	}
+	n.gate("prop")
 	want, list := asked(opts.Indices)
 	f := Fetch{Kind: "prop", Epoch: uint64(opts.Epoch), Indices: list}
 	if n.w.Chain.takeFail("prop") {
@@ -150,6 +200,7 @@ func (n *Node) SyncCommitteeDuties(_ context.Context, opts *api.SyncCommitteeDut
 	if opts == nil || len(opts.Indices) == 0 {
 		return nil, errors.New("no validator indices specified")
 	}
+	n.gate("sync")
 	want, list := asked(opts.Indices)
 	f := Fetch{Kind: "sync", Epoch: uint64(opts.Epoch), Indices: list}
 	if n.w.Chain.takeFail("sync") {
